@@ -42,7 +42,8 @@ RULE = ("scenario = (tree key, waiting-area cap, forest shape {chain, star, rand
         "elements with signed tokens behind them) then verify/get_root_path of every token; token forms built by "
         "from_database_tuple with right/wrong content; re-signed twins (ECDSA keys); small-scope enumeration: all "
         "shapes x all permutations, plain and with one extra bad/duplicate item; offered objects whose content field "
-        "holds foreign bytes (first arrivals and duplicates of stored tokens)")
+        "holds foreign bytes (first arrivals and duplicates of stored tokens); re-cut copies of tokens; reader trees "
+        "opened with the bare public key or with a key object that also holds the secret; owner-mode trees")
 TRUSTED_BASE = [
     "hand-written Lean model of tokentree/tree.py, token.py, signed_object.py (Ipv8/C16/Model.lean), tied to the code by "
     "the correspondence run; tools/gen_c16.py (AST extraction of five constants) for GenConst.lean",
@@ -291,7 +292,7 @@ def make_own_scenario(rng) -> dict:
     ops += closing_ops(rng, [], len(contents), contents)
     return {"key": keyhex, "fkey": keyhex, "keytype": keytype, "cap": 100, "shape": "own", "order": "own",
             "size_class": "own", "parents": [op[1] for op in ops if op[0] == "add"], "mix": [], "tokens": [],
-            "ops": ops, "own": True}
+            "ops": ops, "own": True, "open_with_secret": rng.random() < 0.35}
 
 
 def make_scenario(rng, size_class: str | None = None) -> dict:
@@ -354,7 +355,7 @@ def make_scenario(rng, size_class: str | None = None) -> dict:
             ops.append(["missing"])
     ops += closing_ops(rng, toks, n)
     owner_tree = rng.random() < 0.3      # the owner's own tree (private_key mode) is offered all of this
-    return {"owner_tree": owner_tree,
+    return {"owner_tree": owner_tree, "open_with_secret": rng.random() < 0.35,
             "key": keyhex, "fkey": fkeyhex, "keytype": keytype, "cap": cap, "shape": shape, "order": order,
             "size_class": size_class, "parents": parents, "mix": mix, "tokens": toks, "ops": ops}
 
@@ -497,7 +498,20 @@ class Run:
         return "E=" + ",".join(els) + " U=" + ",".join(unc)
 
     def new_tree(self, own: bool = False):
-        tree = self.TokenTree(private_key=self.sk) if own else self.TokenTree(public_key=self.pub)
+        # a reader's tree can be named by the bare public key or by a key object that also holds the secret (a
+        # private key IS-A public key in this library): the same key, so the same genesis and the same tree
+        if own:
+            tree = self.TokenTree(private_key=self.sk)
+        else:
+            tree = self.TokenTree(public_key=self.sk if self.sc.get("open_with_secret") else self.pub)
+        self.ctx.count("tree-opened-with:%s" % ("private_key" if own else
+                                                "public_key=<secret holder>" if self.sc.get("open_with_secret")
+                                                else "public_key=<bare public key>"))
+        if tree.genesis_hash != self.genesis or tree.public_key.key_to_bin() != self.pub.key_to_bin():
+            self.fail("TokenTree.__init__:wrong-genesis",
+                      f"a tree opened with {'private_key' if own else 'public_key'}=<key object"
+                      f"{' holding the secret' if own or self.sc.get('open_with_secret') else ''}> has genesis "
+                      f"{id8(tree.genesis_hash)}, the hash of the public key is {id8(self.genesis)}")
         if self.sc["cap"] != SPEC_CAP:
             tree.unchained_max_size = self.sc["cap"]
         return tree
@@ -630,6 +644,12 @@ class Run:
         if self.with_lines:
             if self.share is None:
                 self.line(f"key {hx(self.genesis)} {self.siglen}", "ok")
+                pubbin = self.pub.key_to_bin()
+                self.reg_h(pubbin)
+                secret = self.sk.key_to_bin() if (sc.get("open_with_secret") or sc.get("own") or sc.get("owner_tree")) \
+                    else None
+                self.line(f"viewobj ctor {hx(pubbin)} {'none' if secret is None else hx(secret)} {capw(sc['cap'])}",
+                          f"ok {hx(tree.genesis_hash)}")
             self.line(f"new {capw(sc['cap'])}", "ok")
         ops = sc["ops"] if ops is None else ops
         rng_local = None
@@ -1141,7 +1161,7 @@ def make_loaded_scenario(rng) -> dict:
         ops.append(["serupto", rng.randrange(len(toks))])
     return {"key": keyhex, "fkey": fkeyhex, "keytype": keytype, "cap": 100, "shape": "loaded", "order": "loaded",
             "size_class": "loaded", "parents": parents, "mix": mix, "tokens": toks, "ops": ops, "loaded": True,
-            "owner_tree": rng.random() < 0.4}
+            "owner_tree": rng.random() < 0.4, "open_with_secret": rng.random() < 0.35}
 
 
 def run_loaded(ctx: Ctx, n_scen: int, use_model: bool):
@@ -1270,6 +1290,7 @@ def make_multi_scenario(rng) -> dict:
         ops.append(["reload", v])
     cap = 100 if rng.random() < 0.85 else rng.choice([1, 2, 3])
     return {"multi": True, "keys": keys, "keytype": keytype, "cap": cap, "tokens": toks, "ops": ops,
+            "open_with_secret": [rng.random() < 0.4 for _ in keys],
             "objects": "shared" if rng.random() < 0.8 else "fresh", "shape": "multi", "order": "interleaved",
             "size_class": "multi", "parents": [], "mix": sorted({t["label"] for t in toks if t["label"] != "real"})}
 
@@ -1412,7 +1433,13 @@ class MultiRun:
             prev = tree.elements[prev].previous_token_hash
 
     def new_tree(self, v):
-        tree = self.TokenTree(public_key=self.pubs[v])
+        holder = bool(self.sc.get("open_with_secret", [False] * len(self.sks))[v])
+        tree = self.TokenTree(public_key=self.sks[v] if holder else self.pubs[v])
+        self.ctx.count("multi:view-opened-with:%s" % ("secret holder" if holder else "bare public key"))
+        if tree.genesis_hash != self.gen[v]:
+            self.fail("TokenTree.__init__:wrong-genesis",
+                      f"the view of key {v} opened with public_key=<key object{' holding the secret' if holder else ''}> has "
+                      f"genesis {id8(tree.genesis_hash)}, the hash of the public key is {id8(self.gen[v])}")
         if self.sc["cap"] != SPEC_CAP:
             tree.unchained_max_size = self.sc["cap"]
         return tree
@@ -1426,7 +1453,9 @@ class MultiRun:
             self.line(f"key {hx(self.gen[0])} {self.siglen}", "ok")
             for v in range(nk):
                 self.once(("h", self.keybin[v]), f"h {hx(self.keybin[v])} {hx(self.gen[v])}")
-                self.line(f"view v{v} {hx(self.keybin[v])} {capw(sc['cap'])}", "ok")
+                holder = bool(sc.get("open_with_secret", [False] * nk)[v])
+                self.line(f"viewobj v{v} {hx(self.keybin[v])} {hx(self.sks[v].key_to_bin()) if holder else 'none'} "
+                          f"{capw(sc['cap'])}", f"ok {hx(trees[v].genesis_hash)}")
         try:
             for n, op in enumerate(sc["ops"]):
                 self.cur = (n, op)
@@ -1592,7 +1621,8 @@ def run_exhaustive(ctx: Ctx, sizes, use_model: bool, extra_kinds=None, tag="plai
                     else:
                         items.append((n, "hash" if toks[n]["content"] is None else rng.choice(["pub", "full"])))
                     ctx.count(f"exhaustive:{tag}:extra:{kind}")
-                base = {"key": keyhex, "fkey": fkeyhex, "keytype": "curve25519", "cap": 100, "shape": "exhaustive",
+                base = {"open_with_secret": total % 3 == 0,
+                        "key": keyhex, "fkey": fkeyhex, "keytype": "curve25519", "cap": 100, "shape": "exhaustive",
                         "order": "all", "size_class": f"n{n}", "parents": pv, "mix": [kind] if kind else [],
                         "tokens": toks, "ops": []}
                 ref = None
